@@ -24,6 +24,10 @@ def h(a: int) -> int: ...
 
 
 @guppy.declare
+def ff(a: int) -> float: ...
+
+
+@guppy.declare
 def emit(a: int) -> None: ...
 
 '''
@@ -68,6 +72,11 @@ class Gen:
 
     def bool_expr(self, vars_, d):
         r = self.r.random()
+        if self.effects > 0.3 and r < 0.06:
+            # mixed int / float comparison (the checker resolves one side through a reflected method)
+            op = self.r.choice(["<", "<=", "==", "!=", ">", ">="])
+            a, b = self.int_expr(vars_, 1), f"ff({self.int_atom(vars_)})"
+            return f"{a} {op} {b}" if self.r.random() < 0.5 else f"{b} {op} {a}"
         if d <= 0 or r < 0.35:
             op = self.r.choice(["<", "<=", "==", "!=", ">", ">="])
             return f"{self.int_expr(vars_, d - 1)} {op} {self.int_expr(vars_, d - 1)}"
@@ -168,6 +177,40 @@ def gen_program(kind: str, idx: int, seed: int) -> str:
 
 
 C03_FIXED = [
+    """
+def q9(x: int, y: int) -> int:
+    n = 0
+    if x:
+        n += 1
+    if not y:
+        n += 10
+    k = 0
+    while x and k < 5:
+        k += 1
+        x = x - 1 if x > 0 else x + 1
+        n += 100
+    if x - y:
+        n += 1000
+    return n
+""",
+    """
+def q10(x: int, y: int) -> int:
+    t = 2.0
+    r = 0
+    if x <= t:
+        r += 1
+    if x >= t:
+        r += 2
+    if x < 2.5:
+        r += 4
+    if 1.5 * x == 3.0:
+        r += 8
+    if t > x:
+        r += 16
+    if x + 0.5 != t + 0.5:
+        r += 32
+    return r
+""",
     """
 def q7(x: int, y: int) -> int:
     s = 0
@@ -286,6 +329,39 @@ def q5(x: int, y: int) -> int:
 ]
 
 C05_FIXED = [
+    """
+def e12(x: int, y: int) -> int:
+    a = f(1) + ff(2)
+    b = ff(3) * g(4)
+    c = f(5) < ff(6)
+    d = h(7) - ff(8)
+    e = ff(9) >= f(10)
+    if c or e:
+        emit(1)
+    return 0
+""",
+    """
+def e12b(x: int, y: int) -> int:
+    a = f(1) + ff(2)
+    b = ff(3) * g(4)
+    d = h(7) - ff(8)
+    e = ff(9) >= f(10)
+    k = ff(11) < 3
+    if e or k:
+        emit(1)
+    return 0
+""",
+    """
+def e13(x: int, y: int) -> int:
+    if f(1):
+        emit(1)
+    if not g(2):
+        emit(2)
+    n = 0
+    while n < 2 and h(n):
+        n += 1
+    return n
+""",
     """
 def e9(x: int, y: int) -> int:
     if f(x) > 0 and False:
